@@ -161,6 +161,9 @@ func (w *World) Render() map[string]string {
 		if strings.HasPrefix(k, "p/") && strings.HasPrefix(v, "package p\n") {
 			v = "package " + pname + "\n" + strings.TrimPrefix(v, "package p\n")
 		}
+		if strings.HasPrefix(k, "p/") && strings.HasPrefix(v, "package p_test\n") {
+			v = "package " + pname + "_test\n" + strings.TrimPrefix(v, "package p_test\n")
+		}
 		out[k] = v
 	}
 	return out
